@@ -36,6 +36,7 @@ fn table(id: &str) -> Option<(RunFn, ReplayFn)> {
         "C05" => (props::c05::run_c05, props::c05::replay_c05),
         "C06" => (props::c05::run_c06, props::c05::replay_c06),
         "C07" => (props::c07::run, props::c07::replay),
+        #[cfg(not(feature = "nohook"))]
         "C08" => (props::c08::run, props::c08::replay),
         "C09" => (props::c09::run, props::c09::replay),
         "C10" => (props::c10::run, props::c10::replay),
